@@ -45,7 +45,8 @@ static void cb_lookup(void* ctx, const llb_data_t* key, llb_rule_t* out) {
   c_calls++; c_which = 6; c_ctx = ctx; c_len = key->length; c_ptr = key->data;
   out->context = &c_ruleCtx; out->create_task = cb_create; out->is_result_valid = cb_valid; out->update_status = cb_status;
 }
-static void cb_cycle(void* ctx, const llb_data_t* keys, uint64_t n) { c_calls++; c_which = 7; c_ctx = ctx; c_keys = keys; c_count = n; }
+static llb_data_t c_keyCopy[2];
+static void cb_cycle(void* ctx, const llb_data_t* keys, uint64_t n) { c_calls++; c_which = 7; c_ctx = ctx; c_count = n; for (unsigned j = 0; j < 2 && j < n; j++) c_keyCopy[j] = keys[j]; }   // the array is only valid during the call
 static void cb_error(void* ctx, const char* m) {}
 extern "C" void harness_capi(void) {
   const unsigned n = VF_N;
@@ -137,7 +138,7 @@ extern "C" void harness_capi(void) {
     std::vector<Rule*>& items = *new std::vector<Rule*>; items.reserve(2); items.push_back(rule); items.push_back(rule);
     d->cycleDetected(items);
     VF_ASSERT(c_calls == 1 && c_which == 7 && c_count == 2 && c_ctx == &c_engCtx, "cycle_detected receives every key of the cycle");
-    for (unsigned j = 0; j < 2; j++) { VF_ASSERT(c_keys[j].length == n, "cycle key length"); for (unsigned i = 0; i < n; i++) VF_ASSERT(c_keys[j].data[i] == bytes[i], "cycle key bytes"); }
+    for (unsigned j = 0; j < 2; j++) { VF_ASSERT(c_keyCopy[j].length == n, "cycle key length"); for (unsigned i = 0; i < n; i++) VF_ASSERT(c_keyCopy[j].data[i] == bytes[i], "cycle key bytes"); }
   }
 #endif
   vf_observe(g_calls + c_calls);
